@@ -223,7 +223,15 @@ func (p c17) Run(c *core.Ctx) {
 		return d
 	}
 	// 1. prefix path: typed expectation
-	gotP, outP, detP := bindOnce(`prefix:"cfg.k"`, ft, doc)
+	// in a quarter of the cases the last key segment is selected by a placeholder of its own ("cfg.${sel}",
+	// sel: k): the three ways of binding must still agree
+	pfxTag, valTag, propTag := `prefix:"cfg.k"`, `value:"${cfg.k}"`, `prop:"cfg.k"`
+	if c.Rng.Intn(4) == 0 {
+		doc += "sel: k\n"
+		pfxTag, valTag, propTag = `prefix:"cfg.${sel}"`, `value:"${cfg.${sel}}"`, `prop:"cfg.${sel}"`
+		c.Count("cases_with_a_selected_key_segment", 1)
+	}
+	gotP, outP, detP := bindOnce(pfxTag, ft, doc)
 	c.Count("starts", 1)
 	if abnormal(outP) {
 		c.Fail("", fmt.Sprintf("prefix binding of %#v into %s: %s", v.v, ft, detP), detail(nil))
@@ -235,7 +243,7 @@ func (p c17) Run(c *core.Ctx) {
 	}
 	c.Count("prefix_bindings_checked", 1)
 	// 2. value / prop path must agree with the prefix twin
-	for _, tw := range []struct{ name, tag string }{{"value", `value:"${cfg.k}"`}, {"prop", `prop:"cfg.k"`}} {
+	for _, tw := range []struct{ name, tag string }{{"value", valTag}, {"prop", propTag}} {
 		got, out, det := bindOnce(tw.tag, ft, doc)
 		c.Count("starts", 1)
 		if abnormal(out) {
